@@ -695,6 +695,14 @@ class _ParseFunction(_nt('_ParseFunction', 'func, args, kwargs')):
     def __call__(self, ${ctx}_text, _pos):
         return self.func(${ctx}_text, _pos, *self.args, **dict(self.kwargs))
 
+    def __hash__(self):
+        # An argument can be an unhashable value, like a list of earlier
+        # results. Equal calls still have to get equal hashes.
+        try:
+            return tuple.__hash__(self)
+        except TypeError:
+            return hash((self.func, len(self.args), len(self.kwargs)))
+
 
 class _StringLiteral(str):
     def __call__(self, ${ctx}_text, _pos):
